@@ -945,7 +945,8 @@ theorem stepDelete_ok {r r' : Repo} {path : Path} (hna : NoAssoc r)
 
 theorem get_after_create {r r' : Repo} {nsArg : Option Name} {inst : Inst} {p : Path} (pl : Option (List Name))
     (hna : NoAssoc r) (h : stepCreate r nsArg inst = (r', .path p)) :
-    ∃ c, (stepGet r' p pl).2 = .inst { cls := inst.cls, path := p, props := filterProps pl (adjustNames c inst.props) } := by
+    ∃ c, (stepGet r' p pl).2 =
+      .inst ⟨inst.cls, p, removeClassOrigin (removeQualifiers (filterProps pl (adjustNames c inst.props))), false⟩ := by
   obtain ⟨e, c, hns, hcl, hnp, hl, rfl⟩ := stepCreate_ok hna h
   obtain ⟨hh, hn, hpc, _⟩ := newInstancePath_ok hnp
   refine ⟨c, ?_⟩
@@ -955,6 +956,7 @@ theorem get_after_create {r r' : Repo} {nsArg : Option Name} {inst : Inst} {p : 
   have hrp : reqPath (effNs r nsArg) p = p := path_eta_of hh hn
   simp only [hrp, hpc, findCls_self hcl, Option.isNone_some, Bool.false_eq_true, ↓reduceIte]
   rw [lookupInst_append_fresh hl _ rfl]
+  simp only [getInstancePost_eq, retrieveSimple]
 
 theorem create_twice {r r' : Repo} {nsArg : Option Name} {inst : Inst} {p : Path}
     (hna : NoAssoc r) (h : stepCreate r nsArg inst = (r', .path p)) :
@@ -989,12 +991,12 @@ def getOut (eo : Option NsEntry) (p : Path) (pl : Option (List Name)) : Out :=
     if (findCls e.classes p.cls).isNone then errClass
     else match lookupInst e.insts p with
       | none => errNotFound
-      | some st => .inst { cls := st.inst.cls, path := p, props := filterProps pl st.inst.props }
+      | some st => .inst { cls := st.inst.cls, path := p, props := (retrieveSimple pl st.inst).1, quals := false }
 
 theorem stepGet_snd (r : Repo) (path : Path) (pl : Option (List Name)) :
     (stepGet r path pl).2 = getOut (findNs r (effNs r path.ns)) (reqPath (effNs r path.ns) path) pl := by
   unfold stepGet getOut
-  simp only []
+  simp only [getInstancePost_eq]
   cases hns : findNs r (effNs r path.ns) with
   | none => rfl
   | some e =>
@@ -2576,9 +2578,9 @@ theorem step_sameSchema (r : Repo) (op : Op) : SameSchema r (step r op).1 := by
       | exact sameSchema_refl r
       | exact sameSchema_setInsts r _ _
       | (rename_i h; exact sameSchema_deleteAll _ _ _ _ h)
-  | get p pl =>
-    simp only [step]; rw [(sim_get r p pl).2.1]; exact sameSchema_refl r
-  | enumInsts ns c di pl =>
+  | get p pl o =>
+    simp only [step]; rw [(sim_get r p pl o).2.1]; exact sameSchema_refl r
+  | enumInsts ns c di pl o =>
     simp only [step]; unfold stepEnumInsts; simp only []
     repeat' split
     all_goals exact sameSchema_refl r
